@@ -34,3 +34,11 @@ CLAIMS.update({
          "text": "static_array_ref<char,char,N> for N=0..5 (0..8 thorough): assign_string (C string and range, 3 eos modes), assign_range, assign(first,last), assign(ilist), fill, assign(count,v), strlen, strlen_r against the documented byte-level spec for all array contents, all inputs of length <= N, with guard bytes on both sides and the returned iterator."},
 })
 for k in CLAIMS: NA.pop(k, None)
+
+CLAIMS.update({
+ "C06": {"level": "model_checking", "ref": "DESIGN.md §6 C06",
+         "text": "size_bytes_checked(message view / group view, n) on malloc(n) with n symbolic in 0..NMAX and every byte symbolic (all truncation points and all corruptions at once): no access outside the allocation (every load and H1 touch tested with __CPROVER_r_ok), valid <=> the structure fits (validate-before-read reference walker), exact size, and bounded work (unwinding assertions, n+2). Two harness variants: structure (counts <= 3, larger buffer) and hostile counts (unconstrained numInGroup, small buffer). Three open known findings (F6a/F6b/F6c) are excluded by input class and re-derived by twins."},
+ "C17": {"level": "translation_validation", "ref": "DESIGN.md §6 C17",
+         "text": "fill_message_header / fill_group_header for five header-layout schemas (reordered members, custom offsets + gaps + extra members, mixed integer widths, numGroups/numVarDataFields counters, ref-typed members) and the message schemas: from an arbitrary prior image, exactly the schema's identifying values (and the numInGroup argument over its whole range) are written at the model's member offsets in the schema byte order, every other byte is unchanged, and the returned view is that header."},
+})
+for k in CLAIMS: NA.pop(k, None)
